@@ -725,6 +725,7 @@ func special(r *core.Run) {
 	// ("limits the number of successive macro expansions"), through evaluation and through macroexpand, at top
 	// level, inside a function and under a handler; the error is catchable and the runtime usable afterwards.
 	macroExact(r)
+	macroDefault(r)
 	// (f) one top-level evaluation governed by several contexts in turn (a host builtin re-entering under a child context)
 	nestedContexts(r)
 }
@@ -810,6 +811,93 @@ func macroExact(r *core.Run) {
 	})
 }
 
+// macroDefault: the macro-expansion bound with NOTHING configured (the documented default of 1000 successive
+// expansions).  Endless expanders -- a lisp macro expanding to itself, one that grows its argument, a host (Go) macro
+// expanding to itself, a two-macro cycle -- under evaluation, in a function, through the macroexpand builtin and under
+// a handler: each must end in the catchable macro-expansion error, and chains of 999..1000 expansions must run.
+type macroDefaultKase struct {
+	Name string `json:"name"`
+	Src  string `json:"src"`
+	Want string `json:"want"`
+}
+
+const macroDefaultPrelude = "(defmacro forever () '(forever))\n(defmacro grow (x) (quasiquote (grow ((unquote x)))))\n(defmacro ping () '(pong))\n(defmacro pong () '(ping))\n" +
+	"(defmacro countdown (n) (if (<= n 0) ''done (quasiquote (countdown (unquote (- n 1))))))\n(defun viadef () (forever))"
+
+func macroDefaultCases() []macroDefaultKase {
+	const exceeded = "ERR<error: macro expansion depth exceeded"
+	var ks []macroDefaultKase
+	for _, m := range []struct{ id, call string }{{"self", "(forever)"}, {"growing", "(grow 1)"}, {"cycle", "(ping)"}, {"host-macro", "(host-forever)"}} {
+		ks = append(ks,
+			macroDefaultKase{m.id + "/eval", m.call, exceeded},
+			macroDefaultKase{m.id + "/macroexpand", "(macroexpand '" + m.call + ")", exceeded},
+			macroDefaultKase{m.id + "/macroexpand-in-function", "((lambda (f) (macroexpand f)) '" + m.call + ")", exceeded},
+			macroDefaultKase{m.id + "/handled", "(handler-bind ([condition (lambda (c &rest a) 'caught)]) " + m.call + ")", "VAL<'caught>"},
+			macroDefaultKase{m.id + "/macroexpand-handled", "(handler-bind ([condition (lambda (c &rest a) 'caught)]) (macroexpand '" + m.call + "))", "VAL<'caught>"},
+		)
+	}
+	ks = append(ks, macroDefaultKase{"self/in-defun", "(viadef)", exceeded})
+	for _, n := range []int{1, 500, 998, 999} {
+		ks = append(ks, macroDefaultKase{fmt.Sprintf("countdown-%d/eval", n), fmt.Sprintf("(countdown %d)", n), "VAL<'done>"})
+		ks = append(ks, macroDefaultKase{fmt.Sprintf("countdown-%d/macroexpand", n), fmt.Sprintf("(macroexpand '(countdown %d))", n), "VAL<''done>"})
+	}
+	for _, n := range []int{1001, 1500} {
+		ks = append(ks, macroDefaultKase{fmt.Sprintf("countdown-%d/eval", n), fmt.Sprintf("(countdown %d)", n), exceeded})
+		ks = append(ks, macroDefaultKase{fmt.Sprintf("countdown-%d/macroexpand", n), fmt.Sprintf("(macroexpand '(countdown %d))", n), exceeded})
+	}
+	return ks
+}
+
+func macroDefaultCase(k macroDefaultKase) (bool, string) {
+	done := make(chan string, 1)
+	go func() {
+		env := el.MustEnv(el.Opts{})
+		env.AddMacros(true, el.Fn("host-forever", nil, func(env *lisp.LEnv, args *lisp.LVal) *lisp.LVal {
+			return lisp.SExpr([]*lisp.LVal{lisp.Symbol("host-forever")})
+		}))
+		if o := env.Load(macroDefaultPrelude); o.IsErr {
+			done <- "harness: prelude: " + o.Full()
+			return
+		}
+		// a generous step budget keeps a runaway LISP macro from hanging the check: it then ends with the wrong
+		// condition, which is reported; no macro-expansion bound is configured
+		lisp.WithMaxSteps(50_000_000)(env.LEnv)
+		out := env.Load(k.Src)
+		got := "VAL<" + out.Text + ">"
+		if out.IsErr {
+			got = "ERR<" + out.Cond + ": " + out.Text + ">"
+		}
+		after := env.Load("(countdown 3)")
+		if after.IsErr || after.Text != "'done" {
+			got += "; afterwards (countdown 3) => " + after.Full()
+		}
+		if n := len(env.Runtime.Stack.Frames); n != 0 {
+			got += fmt.Sprintf("; %d frames left", n)
+		}
+		done <- got
+	}()
+	select {
+	case got := <-done:
+		return !strings.HasPrefix(got, k.Want) || strings.Contains(got, "; "), fmt.Sprintf("%s with no macro-expansion bound configured => %s (expected %s...)", k.Src, got, k.Want)
+	case <-time.After(60 * time.Second):
+		return true, fmt.Sprintf("%s with no macro-expansion bound configured did not return within 60 s (the evaluation is left running)", k.Src)
+	}
+}
+
+func macroDefault(r *core.Run) {
+	ks := macroDefaultCases()
+	r.Bound("macro_default_bound_cases", len(ks))
+	core.ParallelRange(r, int64(len(ks)), nil, func(_ struct{}, i int64) {
+		bad, rep := macroDefaultCase(ks[i])
+		r.AddEvals(2)
+		r.AddTransitions(1)
+		r.Outcome("macro-default-bound")
+		if bad {
+			r.Violate("c04", "special:macro-default-bound:"+ks[i].Name, kase{Src: ks[i].Src, Why: "macro-default " + ks[i].Name}, "with nothing configured, more than 1000 successive expansions end in the catchable macro-expansion error; fewer run", rep, "")
+		}
+	})
+}
+
 const tailPrelude = "(defun deep (k) (if (<= k 0) 0 (+ 1 (deep (- k 1))))) (defun tl (n d) (if (<= n 0) 'done (progn (deep d) (tl (- n 1) d))))"
 
 func tailRun(g *rig, n, d, t int) string {
@@ -860,6 +948,14 @@ func tailExact(r *core.Run) {
 }
 
 func specialReplay(class string, k kase) (bool, string) {
+	if strings.HasPrefix(class, "special:macro-default-bound:") {
+		for _, mk := range macroDefaultCases() {
+			if "special:macro-default-bound:"+mk.Name == class {
+				return macroDefaultCase(mk)
+			}
+		}
+		return false, "unknown case " + class
+	}
 	switch class {
 	case "special:empty-dotimes-cancel":
 		g := newRig()
